@@ -293,6 +293,42 @@ fn c05_many_patterns(seed: u64, idx: usize, cache: &TableCache, rcache: &RefCach
     case_find_with(seed, idx, "C05", Some((spec, extra)), cache, rcache, out, st);
 }
 
+/// C04, C05 (extra cases): lookaheads that match thousands of bytes (the length of the lookahead
+/// match is a summand of the extent).
+fn c05_long_lookahead(seed: u64, idx: usize, suite: &str, cache: &TableCache, rcache: &RefCache, out: &mut String, st: &mut Stats) {
+    let mut r = Rng::derive(seed ^ 0x0c05_1046, idx as u64);
+    let (x, y, z) = (*r.pick(&['a', 'x', 'k']), *r.pick(&['b', 'y', 'é']), *r.pick(&['c', ';', 'z']));
+    let la = match r.below(3) {
+        0 => format!("{}+", y),
+        1 => format!("{}+{}", y, z),
+        _ => format!("[{}{}]*{}", y, x, z),
+    };
+    let mk = |p: String, t: usize, l: Option<(bool, String)>| PatSpec { pattern: p, tid: t, lookahead: l };
+    let spec = vec![ModeSpec {
+        name: "LONG".into(),
+        patterns: vec![
+            mk(x.to_string(), 1, Some((true, la.clone()))),
+            mk(format!("{}{}", x, y), 2, Some((r.chance(80), la.clone()))),
+            // (no pattern for the repeated character alone: the run behind the token is skipped, so
+            // that the reference scan stays linear in the length of the input)
+            mk(format!("{}", z), 4, None),
+        ],
+        transitions: vec![],
+    }];
+    let mut inputs = Vec::new();
+    for n in [4095usize, 4096, 4097, 4098 + r.below(3000)] {
+        let mut t = String::new();
+        t.push(x);
+        for _ in 0..n {
+            t.push(y);
+        }
+        t.push(z);
+        inputs.push(t);
+    }
+    st.count("lookaheads_matching_more_than_4096_bytes", 1);
+    case_find_with(seed, idx, suite, Some((spec, inputs)), cache, rcache, out, st);
+}
+
 /// C01: several patterns of a mode share a token type (the reported type is the one of the first
 /// listed pattern among the longest matches; DESIGN F2 describes what the crate does when the
 /// shared type also occurs before that pattern).
@@ -388,6 +424,9 @@ fn case_find_with(seed: u64, idx: usize, suite: &str, preset: Option<(Vec<ModeSp
     if preset.is_none() && suite == "C01" && idx >= EXTRA_BASE {
         return if idx % 2 == 0 { c01_shared_token_types(seed, idx, cache, rcache, out, st) } else { c01_nested_class_items(seed, idx, cache, rcache, out, st) };
     }
+    if preset.is_none() && (suite == "C04" || suite == "C05") && idx >= EXTRA_BASE {
+        return c05_long_lookahead(seed, idx, suite, cache, rcache, out, st);
+    }
     if preset.is_none() && suite == "C01" && idx % 40 == 7 {
         return c01_many_classes(seed, idx, out, st);
     }
@@ -423,11 +462,41 @@ fn case_find_with(seed: u64, idx: usize, suite: &str, preset: Option<(Vec<ModeSp
         let at = r.below(spec[0].patterns.len() + 1);
         spec[0].patterns.insert(at, PatSpec { pattern: String::new(), tid: 0, lookahead: None });
     }
+    // `add_patterns`: the same pattern text twice (the later one can never win, but it keeps its index)
+    let mut rdup = Rng::derive(seed ^ 0x0c01_d0b1, idx as u64);
+    if via_add_patterns && rdup.chance(30) && !spec[0].patterns.is_empty() {
+        let from = rdup.below(spec[0].patterns.len());
+        let at = rdup.below(spec[0].patterns.len() + 1);
+        let copy = spec[0].patterns[from].clone();
+        spec[0].patterns.insert(at, copy);
+        st.count("add_patterns_lists_with_a_repeated_pattern", 1);
+    }
     if via_add_patterns {
         for (i, p) in spec[0].patterns.iter_mut().enumerate() {
             p.tid = i;
         }
         spec[0].name = "INITIAL".to_string();
+    }
+    // C04, C05: the same pattern text twice in a mode (other token type), with another lookahead:
+    // the second one is a pattern of its own
+    let mut rtw = Rng::derive(seed ^ 0x0c04_7e87, idx as u64);
+    if (suite == "C04" || suite == "C05") && !preset_given && rtw.chance(15) {
+        let k = rtw.below(spec[0].patterns.len());
+        let mut twin = spec[0].patterns[k].clone();
+        twin.tid = spec[0].patterns.iter().map(|p| p.tid).max().unwrap_or(0) + 1;
+        twin.lookahead = match &spec[0].patterns[k].lookahead {
+            Some((pos, la)) => Some((!*pos, la.clone())),
+            None => Some((rtw.chance(50), rtw.pick(&["a", "b", "[a-c]", "\\("]).to_string())),
+        };
+        if spec[0].patterns[k].lookahead.is_none() && rtw.chance(50) {
+            // the first one gets the positive condition, the twin the negative one
+            let text = twin.lookahead.as_ref().unwrap().1.clone();
+            spec[0].patterns[k].lookahead = Some((true, text.clone()));
+            twin.lookahead = Some((false, text));
+        }
+        let at = k + 1 + rtw.below(spec[0].patterns.len() - k);
+        spec[0].patterns.insert(at, twin);
+        st.count("same_pattern_text_twice_with_other_lookahead", 1);
     }
     let modes = cfggen::to_modes(&spec);
     st.cases += 1;
@@ -562,6 +631,11 @@ fn case_find_with(seed: u64, idx: usize, suite: &str, preset: Option<(Vec<ModeSp
         st.inputs += 1;
         let _ = writeln!(out, "input{}", proto::cps(&input));
         for m in 0..dump.modes.len() {
+            // (the declarative verdict enumerates all splits at all positions: not for long inputs,
+            // where the token stream below is compared with the model instead)
+            if input.len() > 1500 {
+                break;
+            }
             let _ = writeln!(out, "findall {}", m);
             let real = real::findall(&scanner, m, &input);
             let found = real.matches(':').count() / 2;
@@ -846,6 +920,56 @@ fn case_iter(seed: u64, idx: usize, suite: &str, cache: &TableCache, out: &mut S
             for (p, mm) in tbl {
                 if let Some(mm) = mm {
                     let _ = writeln!(out, "tbl {} {} {} {}", m, p, mm.token_type(), mm.end() - mm.start());
+                }
+            }
+        }
+        // C06: now and then the input is repeated until it has several hundred characters and is
+        // scanned to the end (dozens to hundreds of mode switches within one iterator)
+        let mut rms = Rng::derive(seed ^ 0x0c06_3232, (idx * 3 + input.len()) as u64);
+        if suite == "C06" && rms.chance(8) && !input.is_empty() {
+            let long: String = input.repeat((600 / input.len()).clamp(2, 150));
+            let _ = writeln!(out, "input{}", proto::cps(&long));
+            let mut ok = true;
+            for m in 0..dump.modes.len() {
+                match catch_unwind(AssertUnwindSafe(|| scanner.verif_find_table(m, &long))) {
+                    Ok(tbl) => {
+                        for (p, mm) in tbl {
+                            if let Some(mm) = mm {
+                                let _ = writeln!(out, "tbl {} {} {} {}", m, p, mm.token_type(), mm.end() - mm.start());
+                            }
+                        }
+                    }
+                    Err(_) => ok = false,
+                }
+            }
+            if ok {
+                out.push_str("new 3\n");
+                let mut hl = History::new(&scanner, &long, 3, dump.modes.len());
+                let mut switches = 0usize;
+                let mut guard = 0usize;
+                loop {
+                    let before = out.len();
+                    hl.step(&mut rms, &Profile { next: 1, ..Default::default() }, out);
+                    let done = out[before..].contains("expect none") || out[before..].contains("expect panic");
+                    hl.step(&mut rms, &Profile { curmode: 1, ..Default::default() }, out);
+                    switches += 1;
+                    guard += 1;
+                    if done || hl.dead || guard > long.len() + 2 {
+                        break;
+                    }
+                }
+                st.count("long_inputs_scanned_to_the_end_with_the_mode_after_every_token", 1);
+                st.count("tokens_on_long_inputs", switches);
+            }
+            // back to the ordinary input of this round
+            let _ = writeln!(out, "input{}", proto::cps(&input));
+            for m in 0..dump.modes.len() {
+                if let Ok(tbl) = catch_unwind(AssertUnwindSafe(|| scanner.verif_find_table(m, &input))) {
+                    for (p, mm) in tbl {
+                        if let Some(mm) = mm {
+                            let _ = writeln!(out, "tbl {} {} {} {}", m, p, mm.token_type(), mm.end() - mm.start());
+                        }
+                    }
                 }
             }
         }
@@ -1156,7 +1280,7 @@ fn c02_class_twins(seed: u64, idx: usize, cache: &TableCache, rcache: &RefCache,
     let mut r = Rng::derive(seed ^ 0x0c02_7817, idx as u64);
     const POSIX: [&str; 14] = ["alpha", "digit", "alnum", "upper", "lower", "space", "punct", "xdigit", "word", "blank", "cntrl", "graph", "print", "ascii"];
     let twins = |r: &mut Rng| -> Vec<String> {
-        match r.below(9) {
+        match r.below(13) {
             0 | 1 => {
                 let k = r.pick(&POSIX).to_string();
                 vec![format!("[[:{}:]]", k), format!("[[:^{}:]]", k)]
@@ -1184,6 +1308,17 @@ fn c02_class_twins(seed: u64, idx: usize, cache: &TableCache, rcache: &RefCache,
                 vec![format!("[{}&&{}]", x, y), format!("[{}--{}]", x, y), format!("[{}~~{}]", x, y), format!("[{}{}]", x, y)]
             }
             7 => vec!["\\.".to_string(), ".".to_string(), "[.]".to_string(), "[\\.]".to_string()],
+            11 | 12 => {
+                // the same characters in another order mean another class (`^` first negates, `-`
+                // between two members is a range)
+                let (a, b) = (*r.pick(&['+', 'a', '|', '#']), *r.pick(&['/', 'c', '~', 'z']));
+                vec![format!("[{}^{}]", a, b), format!("[^{}{}]", a, b), format!("[-{}{}]", a, b), format!("[{}-{}]", a, b)]
+            }
+            9 | 10 => {
+                // an escaped backslash in front of a letter that would form another escape with it
+                let l = *r.pick(&["e", "d", "n", "x41", "pL", "w", "s", "t", "u{41}", "end", "b", "."]);
+                vec![format!("\\\\{}", l), format!("a\\\\{}", l), format!("[\\\\{}]", l.chars().next().unwrap()), format!("\\\\\\\\{}", l.chars().next().unwrap())]
+            }
             _ => {
                 let c = *r.pick(&['a', 'b', 'ß']);
                 vec![c.to_string(), format!("[{}]", c), format!("[^{}]", c), format!("\\x{{{:x}}}", c as u32)]
@@ -2692,6 +2827,43 @@ fn case_c15(seed: u64, idx: usize, out: &mut String, st: &mut Stats) {
         }
         st.count("unsupported_spelling_behind_its_supported_twin", 1);
     }
+    // deeply nested supported patterns (17 and more levels of groups, repeated alternations, classes)
+    let mut r6 = Rng::derive(seed ^ 0x0c15_dee9, idx as u64);
+    if r6.chance(5) {
+        let depth = 17 + r6.below(24);
+        let text = match r6.below(4) {
+            0 => format!("{}a{}", "(".repeat(depth), ")".repeat(depth)),
+            1 => {
+                let mut t = String::from("x");
+                for k in 0..(depth / 3) {
+                    t = format!("(?:{}|{})*", (b'a' + (k % 20) as u8) as char, t);
+                }
+                t
+            }
+            2 => {
+                let mut t = String::from("z");
+                for k in 0..(depth / 2) {
+                    t = format!("[{}{}]", (b'a' + (k % 20) as u8) as char, t);
+                }
+                t
+            }
+            _ => {
+                let mut t = String::from("q");
+                for k in 0..(depth / 4) {
+                    t = format!("{}(\\.{})?", (b'a' + (k % 20) as u8) as char, t);
+                }
+                t
+            }
+        };
+        let m = r6.below(spec.len());
+        let k = r6.below(spec[m].patterns.len());
+        if r6.chance(30) {
+            spec[m].patterns[k].lookahead = Some((r6.chance(50), text));
+        } else {
+            spec[m].patterns[k].pattern = text;
+        }
+        st.count("deeply_nested_supported_patterns", 1);
+    }
     st.cases += 1;
     // a fifth of the cases: a configuration with an attached lookahead goes through the cached
     // `build` first, then the case is its twin spelled with look-around syntax in the pattern text
@@ -2952,6 +3124,14 @@ fn case_c16(seed: u64, idx: usize, cache: &TableCache, out: &mut String, st: &mu
     let _ = writeln!(out, "{}\nexpect oracle", verdict.replace('\n', " "));
     // matches
     let (t, a, b) = (r.below(100000), r.below(5000), r.below(5000) + 5000);
+    // now and then an empty or an inverted span (legal values of the type)
+    let mut rsp = Rng::derive(seed ^ 0x0c16_5ba7, idx as u64);
+    let (a, b) = match rsp.below(6) {
+        0 => (b, a),
+        1 => (a, a),
+        2 => (a + 1, a),
+        _ => (a, b),
+    };
     let m = scnr::Match::new(t, scnr::Span::new(a, b));
     let _ = writeln!(out, "jmatch {} {} {}", t, a, b);
     let mut tm = String::new();
@@ -2989,9 +3169,10 @@ fn case_c16(seed: u64, idx: usize, cache: &TableCache, out: &mut String, st: &mu
             let l1 = 1 + r2.below(60);
             // half of them on one line (end line = start line)
             let l2 = if r2.chance(50) { l1 } else { l1 + r2.below(5) };
+            let end = if r2.chance(20) { start.saturating_sub(r2.below(5)) } else { start + r2.below(30) };
             let v = serde_json::json!({
                 "token_type": r2.below(60),
-                "span": { "start": start, "end": start + r2.below(30) },
+                "span": { "start": start, "end": end },
                 "start_position": { "line": l1, "column": 1 + r2.below(60) },
                 "end_position": { "line": l2, "column": 1 + r2.below(60) },
             });
@@ -3124,6 +3305,10 @@ fn case_c18(seed: u64, idx: usize, cache: &TableCache, out: &mut String, st: &mu
                 }
                 let path = dir.join(format!("{}_{}.dot", prefix.trim_start_matches('/'), mode.name));
                 let text = std::fs::read_to_string(&path).unwrap_or_default();
+                // the text itself, judged by the verified Lean parser
+                let _ = writeln!(out, "dottext {}{}", m, proto::cps(&text));
+                out.push_str("expect dottext done\n");
+                st.count("dot_files_parsed_by_the_verified_parser", 1);
                 let _ = writeln!(out, "dot {}", m);
                 match dotparse::parse(&text) {
                     Err(e) => {
@@ -3491,6 +3676,7 @@ fn extra_cases(suite: &str, n: usize) -> usize {
         "C01" => n / 8,
         "C02" => n / 6,
         "C16" => n / 10,
+        "C04" | "C05" => 3,
         _ => 0,
     }
 }
